@@ -192,6 +192,25 @@ def check_net(res, model, species_names, rng, tag, render=False):
                     res.corr_disagreements += 1
                     res.violation("correspondence", f"matrix entry ({i},{j}): implementation {mt[i][j]} vs model {m_mat[i * n + j]}", case)
                     break          # the oracle below then looks for an input on which the property fails
+        # exact text (C16.matrix_text_is_entry / factor_text_is_factor are about these very strings); the model
+        # leaves printed numbers as {num/den}, written here as Python prints the float
+        rt = model.call("renorm.text", [q(e.A) for e in elements],
+                        [[[int(s.element_count.get(nm, 0)) for nm in ename], q(s.A), s.is_electron] for s in species],
+                        [s.alias for s in species], ename)
+        pynum = lambda m: repr(float(Fraction(m.group(1))))
+        mtxt = [re.sub(r"\{(-?\d+/\d+)\}", pynum, t) for t in rt[0]]
+        ftxt = [t if t == "one" else re.sub(r"\{(-?\d+/\d+)\}", pynum, t) for t in rt[1]]
+        for idx, (a_, b_) in enumerate(zip(rn.matrix, mtxt)):
+            if a_ != b_:
+                res.corr_disagreements += 1
+                res.violation("correspondence", f"text of matrix entry {idx}: implementation {a_[:160]!r} != model text {b_[:160]!r}", case)
+                break
+        for k, (f_, b_) in enumerate(zip(rn.factor, ftxt)):
+            if (b_ == "one") != (not isinstance(f_, str)) or (isinstance(f_, str) and f_ != b_):
+                res.corr_disagreements += 1
+                res.violation("correspondence", f"text of the factor of {species[k].name}: implementation {str(f_)[:160]!r} != model text {b_[:160]!r}", case)
+                break
+        res.count("renormalisation texts compared exactly", len(mtxt) + len(ftxt))
         for k, s in enumerate(species):
             want = None if m_fac[k] == "one" else canon_f(m_fac[k])
             got = None if ft[k] is None else [(Fraction(a), en, Fraction(d)) for a, en, d in ft[k]]
